@@ -97,9 +97,9 @@ class Slice:
 
 
 class RMap:
-    __slots__ = ('entries', 'index', 'ordered')
+    __slots__ = ('entries', 'index', 'ordered', 'symkeys')
 
-    def __init__(self): self.entries = []; self.index = {}; self.ordered = False
+    def __init__(self): self.entries = []; self.index = {}; self.ordered = False; self.symkeys = False
 
     def __repr__(self): return 'map{%s}' % ', '.join('%r: %r' % (e[0], e[1]) for e in self.entries)
 
